@@ -352,6 +352,16 @@ def run_case(seed: int, idx: int, res: UnitResult) -> None:
         alts = [expected]
         actual = T.recv_before(obs, cutoff)
         why = T.match_any(alts, actual)
+        if why is None:
+            # the trace-driven model is only as good as the trace: the sampler must have been subscribed once, at
+            # subscription time, and kept until the result terminated (or the sampler itself completed)
+            sm_subs = T.subs(lab, "sm")
+            sm_unsub = [e[0] for e in lab.ev if e[2] == "unsub" and e[3] == "sm"]
+            term_seq = obs.terminal[3] if obs.terminal is not None else None
+            if len(sm_subs) != 1 or sm_subs[0][1] != SUB_AT:
+                why = "sampler subscriptions at %s, expected exactly one at %s" % ([t for (_, t) in sm_subs], SUB_AT)
+            elif sm_unsub and cutoff is None and (term_seq is None or sm_unsub[0] < term_seq):
+                why = "sampler unsubscribed before the result terminated"
         em = T.emits(lab)
         stimes = {t for (seq, t, name, sid, k, v) in em if name == "s"}
         if any(name == "sm" and t in stimes for (seq, t, name, sid, k, v) in em):
